@@ -1307,7 +1307,7 @@ func (self *_Assembler) _asm_OP_str(_ *_Instr) {
 func (self *_Assembler) _asm_OP_bin(_ *_Instr) {
 	self.parse_string()                             // PARSE  STRING
 	self.slice_from(_VAR_st_Iv, -1)                 // SLICE  st.Iv, $-1
-	self.Emit("MOVQ", _DI, jit.Ptr(_VP, 0))         // MOVQ   DI, (VP)
+	self.WriteRecNotAX(20, _DI, jit.Ptr(_VP, 0), false, false) // MOVQ DI, (VP)
 	self.Emit("MOVQ", _SI, jit.Ptr(_VP, 8))         // MOVQ   SI, 8(VP)
 	self.Emit("SHRQ", jit.Imm(2), _SI)              // SHRQ   $2, SI
 	self.Emit("LEAQ", jit.Sib(_SI, _SI, 2, 0), _SI) // LEAQ   (SI)(SI*2), SI
@@ -1507,20 +1507,21 @@ func (self *_Assembler) _asm_OP_unquote(_ *_Instr) {
 }
 
 func (self *_Assembler) _asm_OP_nil_1(_ *_Instr) {
-	self.Emit("XORL", _AX, _AX)             // XORL AX, AX
-	self.Emit("MOVQ", _AX, jit.Ptr(_VP, 0)) // MOVQ AX, (VP)
+	self.Emit("XORL", _AX, _AX)                 // XORL AX, AX
+	self.WritePtrAX(15, jit.Ptr(_VP, 0), false) // MOVQ AX, (VP)
 }
 
 func (self *_Assembler) _asm_OP_nil_2(_ *_Instr) {
-	self.Emit("PXOR", _X0, _X0)              // PXOR  X0, X0
-	self.Emit("MOVOU", _X0, jit.Ptr(_VP, 0)) // MOVOU X0, (VP)
+	self.Emit("XORL", _AX, _AX)                 // XORL AX, AX
+	self.WritePtrAX(16, jit.Ptr(_VP, 0), false) // MOVQ AX, (VP)
+	self.WritePtrAX(17, jit.Ptr(_VP, 8), false) // MOVQ AX, 8(VP)
 }
 
 func (self *_Assembler) _asm_OP_nil_3(_ *_Instr) {
-	self.Emit("XORL", _AX, _AX)              // XORL  AX, AX
-	self.Emit("PXOR", _X0, _X0)              // PXOR  X0, X0
-	self.Emit("MOVOU", _X0, jit.Ptr(_VP, 0)) // MOVOU X0, (VP)
-	self.Emit("MOVQ", _AX, jit.Ptr(_VP, 16)) // MOVOU AX, 16(VP)
+	self.Emit("XORL", _AX, _AX)                 // XORL AX, AX
+	self.WritePtrAX(18, jit.Ptr(_VP, 0), false) // MOVQ AX, (VP)
+	self.Emit("MOVQ", _AX, jit.Ptr(_VP, 8))     // MOVQ AX, 8(VP)
+	self.Emit("MOVQ", _AX, jit.Ptr(_VP, 16))    // MOVQ AX, 16(VP)
 }
 
 var (
@@ -1531,8 +1532,8 @@ var (
 
 func (self *_Assembler) _asm_OP_empty_bytes(_ *_Instr) {
 	self.Emit("MOVQ", _ZERO_PTR, _AX)
+	self.WritePtrAX(19, jit.Ptr(_VP, 0), false)
 	self.Emit("PXOR", _X0, _X0)
-	self.Emit("MOVQ", _AX, jit.Ptr(_VP, 0))
 	self.Emit("MOVOU", _X0, jit.Ptr(_VP, 8))
 }
 
